@@ -345,7 +345,7 @@ def pipeline_cases(draw):
     if tail.startswith("validation"):
         steps.append(["validation", {"validation_method": "cross_checking_accurate"}])
     dmin = draw(st.integers(-3, 0))
-    return {"pair": pair, "pipeline": steps, "disp": [dmin, dmin + draw(st.integers(1, 4))]}
+    return {"pair": pair, "pipeline": steps, "disp": gen.clamp_interval([dmin, dmin + draw(st.integers(1, 4))], pair["W"], steps)}
 
 
 def pipeline_body(ctx: Ctx, p: dict) -> None:
